@@ -896,6 +896,11 @@ impl<TokenIter: Iterator<Item = Result<Token>>> Parser<TokenIter> {
             }
             TokenData::Identifier(symbol) => DatumBody::Symbol(symbol.clone()).locate(location),
             TokenData::Primitive(p) => DatumBody::Primitive(p.clone()).locate(location),
+            // quote abbreviation inside quoted data: ''a, '(a 'b), '#('a)
+            TokenData::Quote => {
+                self.advance(1)?;
+                self.parse_quoted()?
+            }
             other => return located_error!(SyntaxError::UnexpectedToken(other.clone()), location),
         })
     }
